@@ -14,7 +14,7 @@ Proof. intros (w1 & ->) (w2 & ->). exists (w2 ++ w1). rewrite app_assoc. reflexi
 Lemma tsuffix_tail x t : tsuffix t (x :: t).
 Proof. exists [x]; reflexivity. Qed.
 
-Lemma no_marker_suffix t toks : tsuffix t toks -> no_marker_tokens toks = true -> no_marker_tokens t = true.
+Lemma no_marker_suffix mv mb t toks : tsuffix t toks -> no_marker_tokens mv mb toks = true -> no_marker_tokens mv mb t = true.
 Proof. intros (w & ->) H. unfold no_marker_tokens in *. rewrite forallb_app in H. apply andb_prop in H as [_ H]. exact H. Qed.
 
 Section ParserThm.
@@ -27,57 +27,60 @@ Section ParserThm.
   Hypothesis ps_fwd : forall cb toks ss rest, ps cb toks = Some (ss, rest) -> tsuffix rest toks.
   Hypothesis ps_local : forall cb1 cb2 toks, (forall ends t, tsuffix t toks -> cb1 ends t = cb2 ends t) -> ps cb1 toks = ps cb2 toks.
 
+  Variables mv mb : str -> option str.
+
   Theorem subparse_conservative_lemma : forall fuel ends toks,
-      no_marker_tokens toks = true ->
-      subparse E St token_is_marker pt ps fuel ends toks = subparse E St (fun _ => false) pt ps fuel ends toks.
+      no_marker_tokens mv mb toks = true ->
+      subparse E St mv mb pt ps fuel ends toks = subparse E St never never pt ps fuel ends toks.
   Proof.
     induction fuel as [|f IH]; intros ends toks H; [reflexivity|]. destruct toks as [|[k v] rest]; [reflexivity|].
-    cbn [subparse]. assert (Hrest : no_marker_tokens rest = true) by (eapply no_marker_suffix; [apply tsuffix_tail|exact H]).
-    assert (Hv : is_begin_kind k = true -> token_is_marker v = false).
-    { intros Hk. unfold no_marker_tokens in H. cbn [forallb fst snd] in H. apply andb_prop in H as [H _].
-      rewrite Hk in H. cbn in H. apply negb_true_iff in H. exact H. }
+    cbn [subparse]. assert (Hrest : no_marker_tokens mv mb rest = true) by (eapply no_marker_suffix; [apply tsuffix_tail|exact H]).
+    assert (Hv : (str_eqb k n_variable = true -> mv v = None) /\ (str_eqb k n_block = true -> mb v = None)).
+    { unfold no_marker_tokens in H. cbn [forallb fst snd] in H. apply andb_prop in H as [H _]. apply andb_prop in H as [H1 H2].
+      split; intros Hk; rewrite Hk in *; cbn in *; [destruct (mv v)|destruct (mb v)]; (reflexivity || discriminate). }
+    destruct Hv as [Hvv Hvb].
     destruct (str_eqb k K_DATA); [rewrite (IH ends rest Hrest); reflexivity|].
     destruct (str_eqb k n_variable) eqn:Hkv.
-    - rewrite Hv by (unfold is_begin_kind; rewrite Hkv; reflexivity).
+    - rewrite (Hvv eq_refl). unfold never.
       destruct (pt rest) as [[e [|[k2 v2] rest2]]|] eqn:Ept; try reflexivity.
       destruct (str_eqb k2 K_VAREND); [|reflexivity]. rewrite IH; [reflexivity|].
       eapply no_marker_suffix; [|exact Hrest]. apply pt_fwd in Ept. eapply tsuffix_cons; eauto.
     - destruct (str_eqb k n_block) eqn:Hkb; [|reflexivity].
-      rewrite Hv by (unfold is_begin_kind; rewrite Hkb; apply orb_true_r).
+      rewrite (Hvb eq_refl). unfold never.
       destruct rest as [|t r]; [reflexivity|]. destruct (is_end_name ends t); [reflexivity|].
-      rewrite (ps_local (subparse E St token_is_marker pt ps f) (subparse E St (fun _ => false) pt ps f) (t :: r)).
+      rewrite (ps_local (subparse E St mv mb pt ps f) (subparse E St never never pt ps f) (t :: r)).
       + destruct (ps _ (t :: r)) as [[stmts [|[k2 v2] rest2]]|] eqn:Eps; try reflexivity.
         destruct (str_eqb k2 K_BLOCKEND); [|reflexivity]. rewrite IH; [reflexivity|].
         eapply no_marker_suffix; [|exact Hrest]. apply ps_fwd in Eps. eapply tsuffix_cons; eauto.
       + intros e0 t0 Hs. apply IH. eapply no_marker_suffix; eauto.
   Qed.
 
-  (* the print statement opened with the marker: what the bundled parser builds *)
-  Lemma subparse_marker_print f ends w x te e ve rest :
+  (* the print statement opened with the marker: what the bundled parser builds, for ANY begin token the parser takes for a marker *)
+  Lemma subparse_marker_print f ends v w te e ve rest :
+    mv v = Some w ->
     pt te = Some (e, (K_VAREND, ve) :: rest) ->
-    subparse E St token_is_marker pt ps (S f) ends ((n_variable, w ++ [LBRACE; x; STAR]) :: te) =
-    match subparse E St token_is_marker pt ps f ends rest with
+    subparse E St mv mb pt ps (S f) ends ((n_variable, v) :: te) =
+    match subparse E St mv mb pt ps f ends rest with
     | Some (ns, r) => Some (PPrint (NFilter e autoindent_filter_name w) :: ns, r)
     | None => None
     end.
   Proof.
-    intros Hpt. cbn [subparse]. replace (str_eqb n_variable K_DATA) with false by reflexivity.
-    replace (str_eqb n_variable n_variable) with true by reflexivity. rewrite Hpt.
-    replace (str_eqb K_VAREND K_VAREND) with true by reflexivity.
-    rewrite marker_token_is_marker, autoindent_prefix_opener. reflexivity.
+    intros Hm Hpt. cbn [subparse]. replace (str_eqb n_variable K_DATA) with false by reflexivity.
+    replace (str_eqb n_variable n_variable) with true by reflexivity. rewrite Hpt, Hm.
+    replace (str_eqb K_VAREND K_VAREND) with true by reflexivity. reflexivity.
   Qed.
 
-  (* ... and the same print statement without marker and blank run in the upstream parser *)
   Lemma subparse_plain_print f ends v te e ve rest :
+    mv v = None ->
     pt te = Some (e, (K_VAREND, ve) :: rest) ->
-    subparse E St (fun _ => false) pt ps (S f) ends ((n_variable, v) :: te) =
-    match subparse E St (fun _ => false) pt ps f ends rest with
+    subparse E St mv mb pt ps (S f) ends ((n_variable, v) :: te) =
+    match subparse E St mv mb pt ps f ends rest with
     | Some (ns, r) => Some (PPrint (NPlain e) :: ns, r)
     | None => None
     end.
   Proof.
-    intros Hpt. cbn [subparse]. replace (str_eqb n_variable K_DATA) with false by reflexivity.
-    replace (str_eqb n_variable n_variable) with true by reflexivity. rewrite Hpt.
+    intros Hm Hpt. cbn [subparse]. replace (str_eqb n_variable K_DATA) with false by reflexivity.
+    replace (str_eqb n_variable n_variable) with true by reflexivity. rewrite Hpt, Hm.
     replace (str_eqb K_VAREND K_VAREND) with true by reflexivity. reflexivity.
   Qed.
 End ParserThm.
@@ -161,15 +164,17 @@ Section PipelineThm.
 
   (* template text -> output: bundled lexer rules + bundled parser  =  upstream rules (marker alternatives deleted) + upstream
      parser, for EVERY rule list (every option combination), every behaviour of the unmodified parts, every context *)
+  Variables mv mb : str -> option str.
+
   Theorem pipeline_conservative_lemma (u : uni) (rules : xrules) (inner : str -> option N -> str -> option (list xtok * nat))
           (fuel : nat) (src : str) (c : C) :
     marker_free u rules None src = true ->
-    (forall toks, scanx_all u (demarkx rules) inner src = Some toks -> no_marker_tokens (wrap toks) = true) ->
-    pipeline E St C V token_is_marker pt ps ev text rs u rules inner fuel src c =
-    pipeline E St C V (fun _ => false) pt ps ev text rs u (demarkx rules) inner fuel src c.
+    (forall toks, scanx_all u (demarkx rules) inner src = Some toks -> no_marker_tokens mv mb (wrap toks) = true) ->
+    pipeline E St C V mv mb pt ps ev text rs u rules inner fuel src c =
+    pipeline E St C V never never pt ps ev text rs u (demarkx rules) inner fuel src c.
   Proof.
     intros Hm Ht. unfold pipeline, scanx_all in *. rewrite (scanx_conservative_lemma u rules inner _ None src Hm).
     destruct (scanx u (demarkx rules) inner (S (length src)) None src) as [toks|] eqn:E0; [|reflexivity].
-    rewrite (subparse_conservative_lemma E St pt ps pt_fwd ps_fwd ps_local fuel [] (wrap toks) (Ht toks eq_refl)). reflexivity.
+    rewrite (subparse_conservative_lemma E St pt ps pt_fwd ps_fwd ps_local mv mb fuel [] (wrap toks) (Ht toks eq_refl)). reflexivity.
   Qed.
 End PipelineThm.
